@@ -1038,6 +1038,13 @@ func (w *decWalker) ifStmt(t *ast.IfStmt, list []ast.Stmt, i *int) error {
 						want := []string{okObj.Name(), oObj.Name() + " != nil", oObj.Name() + "." + sel.Sel.Name + " != nil"}
 						sort.Strings(want)
 						src, err2 := w.term(ta.X)
+						// without the `o.F != nil` conjunct, over a local that is still nil: the member's message or nil
+						held := []string{okObj.Name(), oObj.Name() + " != nil"}
+						sort.Strings(held)
+						if strings.Join(conj, "&") == strings.Join(held, "&") && err2 == nil && w.vals[vObj] == "nil" {
+							w.vals[vObj] = "held(" + src + " as " + tname(info.TypeOf(ta.Type)) + "." + sel.Sel.Name + ")"
+							return nil
+						}
 						if strings.Join(conj, "&") == strings.Join(want, "&") && err2 == nil {
 							wt := tname(info.TypeOf(ta.Type))
 							prev := w.vals[vObj]
@@ -1064,8 +1071,9 @@ func (w *decWalker) ifStmt(t *ast.IfStmt, list []ast.Stmt, i *int) error {
 					}
 				}
 				return und("guard %s is not followed by the payload-end computation", nodeStr(t.Cond))
-			case be.Op == token.GTR && w.is(be.Y, w.lVar): // (idx+k) > l
-				if k, ok := w.idxPlus(be.X); ok {
+			default:
+				// (idx+k) > l, l < (idx+k), l-idx < k, k > l-idx: fewer than k bytes are left
+				if k, ok := w.fewerThan(be); ok {
 					// fixed read must follow
 					return w.fixedRead(k, list, i)
 				}
@@ -1093,6 +1101,11 @@ func (w *decWalker) ifStmt(t *ast.IfStmt, list []ast.Stmt, i *int) error {
 					nv := "ornew(" + cur + ", " + init + ")"
 					if strings.HasPrefix(init, "empty(") {
 						nv = cur // nil -> empty fix-up keeps the value
+					}
+					// `var v *M; if o, ok := x.O.(*W); ok && o != nil { v = o.F }; if v == nil { v = &M{} }`: the message the member
+					// already holds if there is one, else a fresh one — the same value as `v := &M{}; if … && o.F != nil { v = o.F }`
+					if o1 != nil && strings.HasPrefix(cur, "held(") && allocTermRe.MatchString(init) {
+						nv = "merged(" + cur[5:len(cur)-1] + ", " + init + "@" + o1.Name() + ")"
 					}
 					if o1 != nil {
 						w.vals[o1] = nv
@@ -1149,6 +1162,27 @@ func (w *decWalker) ifStmt(t *ast.IfStmt, list []ast.Stmt, i *int) error {
 func isZero(info *types.Info, x ast.Expr) bool {
 	k, ok := constInt(info, x)
 	return ok && k == 0
+}
+
+// fewerThan matches the conditions that say "fewer than k bytes are left at the cursor": (idx+k) > l, l < (idx+k),
+// l-idx < k, k > l-idx (idx <= l holds throughout the closure, so the subtraction cannot wrap).
+func (w *decWalker) fewerThan(be *ast.BinaryExpr) (int64, bool) {
+	x, y := be.X, be.Y
+	switch be.Op {
+	case token.GTR:
+	case token.LSS:
+		x, y = y, x
+	default:
+		return 0, false
+	}
+	// x > y
+	if w.is(y, w.lVar) {
+		return w.idxPlus(x)
+	}
+	if sub, ok := ast.Unparen(y).(*ast.BinaryExpr); ok && sub.Op == token.SUB && w.is(sub.X, w.lVar) && w.is(sub.Y, w.idx) {
+		return constInt(w.info, x)
+	}
+	return 0, false
 }
 
 // idxPlus matches (idx + k).
@@ -1350,6 +1384,19 @@ func (w *decWalker) assign(t *ast.AssignStmt, list []ast.Stmt, i *int) error {
 			return nil
 		}
 	}
+	// x.F = runtime.Grow…(x.F, elementCount): more capacity, same length and elements (see capHelper); the amount is one of
+	// the capacity hints below, which never exceed the number of payload bytes
+	if obj == nil && t.Tok == token.ASSIGN {
+		if call, ok := ast.Unparen(t.Rhs[0]).(*ast.CallExpr); ok && len(call.Args) == 2 {
+			if f, ok := core.CalleeObj(info, call).(*types.Func); ok && capHelper(f) && types.ExprString(ast.Unparen(call.Args[0])) == types.ExprString(ast.Unparen(t.Lhs[0])) {
+				n, err := w.term(call.Args[1])
+				if err == nil && (n == "hint" || n == "0") {
+					return nil
+				}
+				return fmt.Errorf("capacity reserved by %s is %s (%s), which is not bounded by the payload length", f.Name(), nodeStr(call.Args[1]), n)
+			}
+		}
+	}
 	// capacity hints: elementCount = packedLen / 8 | count | packedLen
 	if obj != nil && basicKind(obj.Type()) == types.Int {
 		rhs := ast.Unparen(t.Rhs[0])
@@ -1428,10 +1475,90 @@ func (w *decWalker) innerLoop(fs *ast.ForStmt) error {
 	return nil
 }
 
+// fastTag: the tag read with a one-byte fast path, directly after `pre := idx; var V uint64` at the head of a loop whose
+// condition is idx < bound (bound <= l), so that the byte at the cursor exists:
+//
+//	if b := dAtA[idx]; b < 0x80 { V = uint64(b); idx++ } else { <the standard varint loop into V> }
+//
+// A one-byte varint is that byte, and the else branch starts from V == 0: the statement equals the varint loop alone,
+// which is what the caller goes on with. Any other shape is left as it is (and stays undecided).
+func (w *decWalker) fastTag(list []ast.Stmt, at int) []ast.Stmt {
+	if at >= len(list) || at < 2 {
+		return list
+	}
+	info := w.info
+	pre, ok0 := list[at-2].(*ast.AssignStmt)
+	d, ok1 := list[at-1].(*ast.DeclStmt)
+	is, ok2 := list[at].(*ast.IfStmt)
+	if !ok0 || !ok1 || !ok2 || pre.Tok != token.DEFINE || len(pre.Rhs) != 1 || !w.is(pre.Rhs[0], w.idx) {
+		return list
+	}
+	gd, ok := d.Decl.(*ast.GenDecl)
+	if !ok || gd.Tok != token.VAR || len(gd.Specs) != 1 {
+		return list
+	}
+	vs := gd.Specs[0].(*ast.ValueSpec)
+	if len(vs.Names) != 1 || len(vs.Values) != 0 {
+		return list
+	}
+	v := info.ObjectOf(vs.Names[0])
+	if basicKind(v.Type()) != types.Uint64 {
+		return list
+	}
+	init, ok := is.Init.(*ast.AssignStmt)
+	if !ok || init.Tok != token.DEFINE || len(init.Lhs) != 1 || len(init.Rhs) != 1 {
+		return list
+	}
+	bID, ok := init.Lhs[0].(*ast.Ident)
+	ix, ok2 := ast.Unparen(init.Rhs[0]).(*ast.IndexExpr)
+	if !ok || !ok2 || !w.is(ix.X, w.buf) || !w.is(ix.Index, w.idx) {
+		return list
+	}
+	b := info.ObjectOf(bID)
+	c, ok := ast.Unparen(is.Cond).(*ast.BinaryExpr)
+	if !ok || c.Op != token.LSS || !w.is(c.X, b) {
+		return list
+	}
+	if k, ok := constInt(info, c.Y); !ok || k != 0x80 {
+		return list
+	}
+	if len(is.Body.List) != 2 {
+		return list
+	}
+	var sawSet, sawInc bool
+	for _, st := range is.Body.List {
+		switch t := st.(type) {
+		case *ast.AssignStmt:
+			if t.Tok == token.ASSIGN && len(t.Lhs) == 1 && len(t.Rhs) == 1 && w.is(t.Lhs[0], v) {
+				if call, ok := ast.Unparen(t.Rhs[0]).(*ast.CallExpr); ok && len(call.Args) == 1 && w.is(call.Args[0], b) {
+					if tv, ok := info.Types[call.Fun]; ok && tv.IsType() && basicKind(tv.Type) == types.Uint64 {
+						sawSet = true
+					}
+				}
+			}
+		case *ast.IncDecStmt:
+			if t.Tok == token.INC && w.is(t.X, w.idx) {
+				sawInc = true
+			}
+		}
+	}
+	eb, ok := is.Else.(*ast.BlockStmt)
+	if !sawSet || !sawInc || !ok || len(eb.List) != 1 {
+		return list
+	}
+	fl, ok := eb.List[0].(*ast.ForStmt)
+	if !ok {
+		return list
+	}
+	out := append([]ast.Stmt{}, list[:at]...)
+	out = append(out, fl)
+	return append(out, list[at+1:]...)
+}
+
 // mapEntryLoop interprets the entry sub-loop.
 func (w *decWalker) mapEntryLoop(fs *ast.ForStmt) error {
 	info := w.info
-	body := w.normVarint(fs.Body.List)
+	body := w.fastTag(w.normVarint(fs.Body.List), 2)
 	entryPre := info.ObjectOf(body[0].(*ast.AssignStmt).Lhs[0].(*ast.Ident))
 	entryPost := w.post
 	var tagVar types.Object
@@ -1847,7 +1974,7 @@ func extractUnmarshal(m *model.Msg) (*decModel, error) {
 		dm.Problems = append(dm.Problems, "epilogue is not `if iNdEx > l { return …, io.ErrUnexpectedEOF }; return …, nil`")
 	}
 	// loop body: preIndex := idx; var wire; varint; fieldNum; wireType; guards; switch
-	lb := w.normVarint(loop.Body.List)
+	lb := w.fastTag(w.normVarint(loop.Body.List), 2)
 	bi := 0
 	next := func() ast.Stmt {
 		if bi < len(lb) {
